@@ -545,4 +545,219 @@ def validateCompleteState [DecidableEq H] (assembled hdr : Roots H) (fullValidat
   else if !fullValidation then .invalidState
   else .finalised
 
+/-! ## `Desegmenter`: per-tree cache / apply bookkeeping (`chain/src/txhashset/desegmenter.rs`)
+
+The desegmenter keeps, per tree (bitmap, output, rangeproof, kernel), a cache `Vec<Segment<T>>` of
+segments that passed validation, and derives "the next required segment index" from the size of
+the local MMR every time it is asked.  This section models that bookkeeping at the level of leaf
+counts: `cache_*_segment` / `has_*_segment_with_id` (duplicates by full identifier are dropped),
+`next_required_*_segment_index`, `take_segment_batch` (selects by `identifier().idx` only — sound because `add_*_segment` refuses
+every segment of another height, so all cached segments of a tree have the asked height),
+`apply_next_segments` and `next_desired_segments`.  What applying a segment does to the local MMR
+is abstracted to the leaf count it leaves behind (`applySeg`): exact for trees without pruning
+(kernel, bitmap) and a lower bound for the prunable ones, where a completely pruned segment may
+push the hash of a parent above its own root and so advance further (the driver re-reads the
+observed size of those two trees after every step and checks it is not behind the model). -/
+namespace Dsg
+
+/-- which `next_required_*_segment_index` the tree uses -/
+inductive Flavor
+  /-- `next_required_bitmap_segment_index`: no genesis special case, no resume adjustment -/
+  | bitmap
+  /-- output / rangeproof: genesis special case (`size == 1`), unguarded resume adjustment -/
+  | prunable
+  /-- kernel: genesis special case, resume adjustment guarded by `total != cur` -/
+  | kernel
+deriving DecidableEq, Repr
+
+structure Tree where
+  flavor : Flavor
+  /-- the segment height the desegmenter asks for (`default_*_segment_height`) -/
+  h : Nat
+  /-- leaves of this tree at the archive header -/
+  total : Nat
+  /-- leaves of the local MMR -/
+  leaves : Nat
+  /-- `*_segment_cache`, in insertion order -/
+  cache : List Ident
+deriving Repr
+
+/-- `SegmentIdentifier::count_segments_required` on a leaf count -/
+def segCount (leaves h : Nat) : Nat := (leaves + 2 ^ h - 1) / 2 ^ h
+
+/-- `next_required_{bitmap,output,rangeproof,kernel}_segment_index` -/
+def Tree.next (t : Tree) : Option Nat :=
+  let tot := segCount t.total t.h
+  match t.flavor with
+  | .bitmap =>
+    let cur := segCount t.leaves t.h
+    if cur = tot then none else some cur
+  | .prunable =>
+    -- `if local_size == 1 { 0 }`: a fresh chain holds the genesis leaf
+    let cur0 := if t.leaves = 1 then 0 else segCount t.leaves t.h
+    -- `if local_size < SegmentIdentifier::pmmr_size(cur, h) { cur -= 1 }`
+    let cur := if t.leaves < cur0 * 2 ^ t.h then cur0 - 1 else cur0
+    if cur = tot then none else some cur
+  | .kernel =>
+    let cur0 := if t.leaves = 1 then 0 else segCount t.leaves t.h
+    let cur := if tot ≠ cur0 ∧ t.leaves < cur0 * 2 ^ t.h then cur0 - 1 else cur0
+    if cur = tot then none else some cur
+
+/-- `cache_*_segment`: push unless a segment with the same identifier is cached -/
+def Tree.add (t : Tree) (id : Ident) : Tree :=
+  if t.cache.contains id then t else { t with cache := t.cache ++ [id] }
+
+/-- `add_*_segment(segment)`: a segment whose height is not the one the desegmenter asks for is
+refused with `Error::InvalidSegmentHeight` before anything else (repair 11f03601e); then
+`validate` / `validate_with` (`valid` = its verdict, content-dependent); then `cache_*_segment`.
+Returns the new tree and whether the call returned `Ok`. -/
+def Tree.receive (t : Tree) (id : Ident) (valid : Bool) : Tree × Bool :=
+  if id.height ≠ t.h then (t, false)
+  else if valid then (t.add id, true)
+  else (t, false)
+
+/-- `cache.iter().position(|s| s.identifier().idx == next_idx)` + `cache.remove(pos)` -/
+def removeFirstIdx : List Ident → Nat → Option (Ident × List Ident)
+  | [], _ => none
+  | c :: cs, n =>
+    if c.idx = n then some (c, cs)
+    else match removeFirstIdx cs n with
+      | some (x, rest) => some (x, c :: rest)
+      | none => none
+
+/-- `take_segment_batch(cache, start_idx, max_segments)`: (taken, remaining cache) -/
+def takeBatch : List Ident → Nat → Nat → List Ident × List Ident
+  | cache, _, 0 => ([], cache)
+  | cache, next, k + 1 =>
+    match removeFirstIdx cache next with
+    | some (s, rest) =>
+      let r := takeBatch rest (next + 1) k
+      (s :: r.1, r.2)
+    | none => ([], cache)
+
+/-- leaf count of the local MMR after `apply_*_segment(s)`: the leaves of the segment are pushed
+one by one where `pos0 == size`, everything already present is skipped, a segment that starts
+beyond the local MMR pushes no leaf -/
+def applySeg (total leaves : Nat) (s : Ident) : Nat :=
+  let lo := s.idx * 2 ^ s.height
+  let hi := min ((s.idx + 1) * 2 ^ s.height) total
+  if lo ≤ leaves ∧ leaves < hi then hi else leaves
+
+/-- `SEGMENT_APPLY_BATCH_SIZE` -/
+def batchSize : Nat := 4
+/-- `MAX_CACHED_SEGMENTS` -/
+def maxCached : Nat := 15
+
+/-- one tree's part of `apply_next_segments` (output / rangeproof / kernel) -/
+def Tree.apply (t : Tree) : Tree :=
+  match t.next with
+  | some n =>
+    let r := takeBatch t.cache n batchSize
+    { t with leaves := r.1.foldl (applySeg t.total) t.leaves, cache := r.2 }
+  | none => if t.cache.length ≥ maxCached then { t with cache := [] } else t
+
+/-- the bitmap part of `apply_next_segments`: one segment, found by idx -/
+def Tree.applyOne (t : Tree) : Tree :=
+  match t.next with
+  | some n =>
+    match removeFirstIdx t.cache n with
+    | some (s, rest) => { t with leaves := applySeg t.total t.leaves s, cache := rest }
+    | none => t
+  | none => t
+
+/-- arrival events of one tree: a segment that passes validation arrives (any height, any idx),
+or `apply_next_segments` runs -/
+inductive Ev
+  | add (id : Ident)
+  | apply
+deriving Repr
+
+def Tree.step (t : Tree) : Ev → Tree
+  | .add id => (t.receive id true).1
+  | .apply => match t.flavor with
+    | .bitmap => t.applyOne
+    | _ => t.apply
+
+def Tree.run (t : Tree) (evs : List Ev) : Tree := evs.foldl Tree.step t
+
+/-- the whole desegmenter -/
+structure State where
+  bitmap : Tree
+  output : Tree
+  rproof : Tree
+  kernel : Tree
+  /-- `bitmap_cache.is_some()` -/
+  bitmapDone : Bool
+deriving Repr
+
+def State.new (hb ho hr hk chunks outs kers : Nat) : State :=
+  { bitmap := ⟨.bitmap, hb, chunks, 0, []⟩
+    output := ⟨.prunable, ho, outs, 1, []⟩
+    rproof := ⟨.prunable, hr, outs, 1, []⟩
+    kernel := ⟨.kernel, hk, kers, 1, []⟩
+    bitmapDone := false }
+
+/-- `apply_next_segments` -/
+def State.apply (s : State) : State :=
+  match s.bitmap.next with
+  | some _ => { s with bitmap := s.bitmap.applyOne }
+  | none =>
+    { s with bitmapDone := true, output := s.output.apply, rproof := s.rproof.apply,
+             kernel := s.kernel.apply }
+
+/-- MMR size of a leaf count -/
+def sizeOf (leaves : Nat) : Nat := insertionToPmmrIndex leaves
+
+/-- the request loop of one of the three main trees in `next_desired_segments`: at most `quota`
+identifiers from the next required index on, skipping cached ones -/
+def wantLoop (t : Tree) (quota : Nat) : Nat → Nat → Nat → List Ident
+  | _, _, 0 => []
+  | idx, added, fuel + 1 =>
+    if idx < segCount t.total t.h then
+      if added = quota then []
+      else
+        let id : Ident := ⟨t.h, idx⟩
+        if (id.posRange (sizeOf t.total)).2 > sizeOf t.leaves && !t.cache.contains id then
+          id :: wantLoop t quota (idx + 1) (added + 1) fuel
+        else wantLoop t quota (idx + 1) added fuel
+    else []
+
+def Tree.want (t : Tree) (quota : Nat) : List Ident :=
+  match t.next with
+  | some n => wantLoop t quota n 0 (segCount t.total t.h + 1)
+  | none => []
+
+/-- `maybe_add_to_request` for the next required segment of a tree -/
+def ensureNext (max : Nat) (acc : List (Nat × Ident)) (tree : Nat) (t : Tree) : List (Nat × Ident) :=
+  match t.next with
+  | some n =>
+    let id : Ident := ⟨t.h, n⟩
+    if t.cache.contains id then acc
+    else if acc.any (fun x => x.1 = tree && x.2 = id) then acc
+    else (if acc.length ≥ max then acc.dropLast else acc) ++ [(tree, id)]
+  | none => acc
+
+/-- `next_desired_segments(max_elements)`: `(tree number, identifier)` in the order returned -/
+def State.want (s : State) (max : Nat) : List (Nat × Ident) :=
+  if !s.bitmapDone then
+    let t := s.bitmap
+    let ids := (List.range (segCount t.total t.h)).filterMap fun idx =>
+      let id : Ident := ⟨t.h, idx⟩
+      -- `>=` since the repair d6b49984d (`>` never asked for a segment that adds exactly one position)
+      if (id.posRange (sizeOf t.total)).2 ≥ sizeOf t.leaves && !t.cache.contains id then some (0, id)
+      else none
+    ids.take max
+  else
+    let q := max / 3
+    let base := (s.output.want q).map (fun i => (1, i)) ++ (s.rproof.want q).map (fun i => (2, i)) ++
+      (s.kernel.want q).map (fun i => (3, i))
+    ensureNext max (ensureNext max (ensureNext max base 1 s.output) 2 s.rproof) 3 s.kernel
+
+/-- `check_progress` returning `true` -/
+def State.complete (s : State) : Bool :=
+  s.kernel.leaves == s.kernel.total && s.output.leaves == s.output.total &&
+  s.rproof.leaves == s.rproof.total && s.bitmapDone
+
+end Dsg
+
 end GV.Seg
